@@ -28,16 +28,19 @@ META = {
                  "Transports (event mode), compared with a reference model (pinned user, failure counter)",
     "text": "Closed canonical state space (pinned user x failure count 0..10 x authenticated, plus ended "
             "connections by cause) reached with histories of up to 13 events over the alphabet user {alice, "
-            "bob} x service {ssh-connection, other} x {none->fail, password->fail/partial/success, publickey "
+            "the empty user name} x service {ssh-connection, other} x {none->fail, password->fail/partial/success, publickey "
             "probe} plus pipelined bursts (username switch, extra credentials and a second service in flight "
             "behind a failing request); thorough adds keyboard-interactive, info responses, signed publickey "
-            "requests, an unknown method, a third user and longer bursts.",
+            "requests, an unknown method, a third user (alice, bob, empty name) and longer bursts. The canonical "
+            "state carries, next to the server's own fields, the harness's count of failed attempts seen on the "
+            "wire, so histories in which the server's counter drifts from the wire are explored separately.",
     "note": "failed attempts are counted on the wire (non-partial USERAUTH_FAILURE sent by the server); server "
             "application answers are scripted per packet; server side is unmodified paramiko",
     "design_ref": "4/C16",
 }
 
 SC = "ssh-connection"
+EMPTY = ""
 PW = ("password", "plain")
 PROBE = ("publickey", "ed25519/ssh-ed25519/probe")
 SIGNED = ("publickey", "ed25519/ssh-ed25519/valid")
@@ -48,7 +51,10 @@ def req(user, service, meth, app):
 
 
 def alphabet(tier):
-    users = ["alice", "bob"] + (["carol"] if tier == "thorough" else [])
+    # the second user of the quick tier is the EMPTY name: RFC 4252 does not forbid it, it is a different
+    # name than "alice" and than "no request seen yet", and it is falsy - it exercises "pinned" as a state of
+    # its own (None vs. "" vs. a name).  thorough: alice, bob and the empty name.
+    users = ["alice", EMPTY] if tier == "quick" else ["alice", "bob", EMPTY]
     evs = []
     for u in users:
         for svc in (SC, "other-service"):
@@ -57,14 +63,18 @@ def alphabet(tier):
             evs.append(req(u, svc, PW, "P"))
             evs.append(req(u, svc, PW, "S"))
             evs.append(req(u, svc, PROBE, "S"))
-    a, b = "alice", "bob"
+    a = users[0]
+    for b in users[1:]:
+        evs += [
+            ("burst", (req(a, SC, PW, "F"), req(b, SC, PW, "S"))),      # switch in flight
+            ("burst", (req(b, SC, PW, "F"), req(a, SC, PW, "S"))),
+            ("burst", (req(b, SC, PW, "F"), req(b, SC, PW, "S"))),      # credentials in flight behind a failure
+        ]
     evs += [
-        ("burst", (req(a, SC, PW, "F"), req(b, SC, PW, "S"))),      # switch in flight
-        ("burst", (req(b, SC, PW, "F"), req(a, SC, PW, "S"))),
-        ("burst", (req(a, SC, PW, "F"), req(a, SC, PW, "S"))),      # credentials in flight behind a failure
-        ("burst", (req(b, SC, PW, "F"), req(b, SC, PW, "S"))),
+        ("burst", (req(a, SC, PW, "F"), req(a, SC, PW, "S"))),
         ("burst", (req(a, "other-service", PW, "S"), req(a, SC, PW, "S"))),
     ]
+    b = users[1]
     if tier == "thorough":
         for u in users[:2]:
             evs += [req(u, SC, ("keyboard-interactive", "-"), x) for x in "QF"]
@@ -80,7 +90,7 @@ def alphabet(tier):
     return evs
 
 
-DEAD_PROBES = [req("alice", SC, PW, "S"), req("bob", SC, PW, "S"),
+DEAD_PROBES = [req("alice", SC, PW, "S"), req("bob", SC, PW, "S"), req(EMPTY, SC, PW, "S"),
                ("burst", (req("alice", SC, PW, "F"), req("alice", SC, PW, "S")))]
 
 
@@ -88,7 +98,13 @@ DEAD_PROBES = [req("alice", SC, PW, "S"), req("bob", SC, PW, "S"),
 # auth_fail_count, Transport.active / _expected_packet and the installed handler object (always the plain
 # AuthHandler here - no GSS events in this alphabet); the application's answers are scripted per packet
 # and the scripted application keeps no state, payload bytes (passwords, key blobs) are constants.  Two
-# histories that agree on these fields therefore have the same futures.  Ended connections (transport
+# histories that agree on these fields therefore have the same futures.  That argument trusts the
+# implementation's own bookkeeping, which is what the property is about; so the key ALSO contains the
+# harness's independent view of the same history - failed attempts counted on the wire (non-partial
+# USERAUTH_FAILURE messages) and whether USERAUTH_SUCCESS was sent.  On a conforming server these are
+# functions of the other fields (no extra states); when the implementation's counter drifts from the wire
+# (reset, double count, ...) the drifted histories are NOT merged with the honest ones and are explored up to
+# the cap.  Ended connections (transport
 # thread has left run()) have no future; they are kept apart by cause (disconnect reason code, cap
 # reached) only so that clause D is exercised on each of them.
 def canon(obs):
@@ -99,12 +115,17 @@ def canon(obs):
             for t in ob["tx"]:
                 if t[0] == 1:
                     code = t[1]
-        return ("dead", code, o["fails"] >= R.FAIL_CAP, o["exc"])
-    return ("alive", o["ah_authed"], o["user"], o["fails"], o["expected"], o["handler"])
+        return ("dead", code, max(o["fails"], wire_failures(obs)) >= R.FAIL_CAP, o["exc"])
+    return ("alive", o["ah_authed"], o["user"], o["fails"], wire_failures(obs), wire_success(obs),
+            o["expected"], o["handler"])
 
 
 def wire_failures(obs):
     return sum(1 for ob in obs for t in ob["tx"] if t[0] == 51 and t[1] == "failed")
+
+
+def wire_success(obs):
+    return any(t[0] == 52 for ob in obs for t in ob["tx"])
 
 
 def subs_of(ev):
